@@ -83,6 +83,7 @@ class VLoop(asyncio.AbstractEventLoop):
         self.spinning = False
         self._task_factory = None
         self.crash_check = None     # callable(ncallbacks) -> bool : die before the next callback?
+        self.in_callback = 0        # > 0 while a loop callback runs ("the loop thread")
 
     # ---- asyncio API used by tornado / asyncio / streamz -------------------
     def time(self):
@@ -207,10 +208,13 @@ class VLoop(asyncio.AbstractEventLoop):
                 self.ncallbacks += 1
                 if self.ncallbacks > cap:
                     raise RuntimeError("virtual loop callback cap exceeded")
+                self.in_callback += 1
                 try:
                     h._run()
                 except Exception as exc:  # asyncio logs and goes on
                     self.errors.append({"exception": exc, "handle": h})
+                finally:
+                    self.in_callback -= 1
 
     def run_one_iteration(self):
         """Exactly one loop iteration (asyncio's _run_once): move due timers, run the
@@ -222,10 +226,13 @@ class VLoop(asyncio.AbstractEventLoop):
             if h._cancelled:
                 continue
             self.ncallbacks += 1
+            self.in_callback += 1
             try:
                 h._run()
             except Exception as exc:
                 self.errors.append({"exception": exc, "handle": h})
+            finally:
+                self.in_callback -= 1
         return n
 
     def next_deadline(self):
